@@ -1035,6 +1035,11 @@ class ModelBuilder:
                     else:
                         end_date = start_date
                     project["end"] = end_date
+            if not project["end"]:
+                # No (usable) duration given: TaskJuggler's default project length
+                from datetime import timedelta
+
+                project["end"] = start_date + timedelta(days=180)
 
         # Apply project attributes
         self._apply_project_attributes(project, proj_data.get("attributes", []))
